@@ -1,6 +1,6 @@
 use tokio::io::{self, AsyncRead, AsyncReadExt};
 
-use crate::binning_index::index::Header;
+use crate::binning_index::index::{Header, max_position};
 
 pub(super) async fn read_header<R>(reader: &mut R) -> io::Result<(u8, u8, Option<Header>)>
 where
@@ -15,6 +15,8 @@ where
         .read_i32_le()
         .await
         .and_then(|n| u8::try_from(n).map_err(|e| io::Error::new(io::ErrorKind::InvalidData, e)))?;
+
+    max_position(min_shift, depth).map_err(|e| io::Error::new(io::ErrorKind::InvalidData, e))?;
 
     let header = read_aux(reader).await?;
 
@@ -64,5 +66,34 @@ mod tests {
         assert!(header.is_none());
 
         Ok(())
+    }
+
+    #[tokio::test]
+    async fn test_read_header_with_invalid_binning_scheme() {
+        let data = [
+            0x00, 0x00, 0x00, 0x00, // min_shift = 0
+            0x05, 0x00, 0x00, 0x00, // depth = 5
+            0x00, 0x00, 0x00, 0x00, // l_aux = 0
+        ];
+
+        let mut reader = &data[..];
+
+        assert!(matches!(
+            read_header(&mut reader).await,
+            Err(e) if e.kind() == io::ErrorKind::InvalidData
+        ));
+
+        let data = [
+            0x0e, 0x00, 0x00, 0x00, // min_shift = 14
+            0x0b, 0x00, 0x00, 0x00, // depth = 11
+            0x00, 0x00, 0x00, 0x00, // l_aux = 0
+        ];
+
+        let mut reader = &data[..];
+
+        assert!(matches!(
+            read_header(&mut reader).await,
+            Err(e) if e.kind() == io::ErrorKind::InvalidData
+        ));
     }
 }
